@@ -42,6 +42,7 @@ template <class T> static void check_whole(DataArray &a, const Ref<T> &ref) {
     nixsym_assert(e == ref.ext, "extent as expected");
     if (e != ref.ext || ref.d.empty()) return;
     std::vector<T> got(ref.d.size());
+    memset(got.data(), 0xA5, got.size() * sizeof(T));                  // a read has to deliver every element, whatever the buffer held
     a.getData(Sym<T>::dt(), got.data(), e, NDSize(e.size(), 0));
     for (size_t k = 0; k < got.size(); k++) nixsym_assert(same(got[k], ref.d[k]), "read returns exactly the values written (untouched elements keep their value, grown elements read as zero)");
 }
@@ -98,6 +99,7 @@ template <class T> static void run_rw() {
             NDSize off(rank, 0), cnt(rank, 1);
             for (size_t k = 0; k < rank; k++) { off[k] = nixsym_choice("off", (uint32_t)ref.ext[k]); cnt[k] = 1 + nixsym_choice("cnt", (uint32_t)(ref.ext[k] - off[k])); }
             std::vector<T> got((size_t)cnt.nelms());
+            memset(got.data(), 0xA5, got.size() * sizeof(T));
             a.getData(Sym<T>::dt(), got.data(), cnt, off);
             size_t k = 0;
             for (size_t i = 0; i < (size_t)cnt[0]; i++) for (size_t j = 0; j < (rank == 2 ? (size_t)cnt[1] : 1); j++)
